@@ -326,6 +326,19 @@ def gen(rng, tier):
                  "div %s %s" % (L(u), L(v))]
         yield dict(family="div-recursive-off-by-two", line=" ; ".join("O " + o for o in items))
 
+    # F21 shape: the dividend is exactly half a block longer than the divisor (no full block runs in divRecursiveStep, the
+    # final step divides by the top half of the divisor only), high words of u maximal, low half of v maximal, top of v minimal
+    for i in range(40 * scale):
+        n = rng.choice([d, d, d + 1, d + 2, d + 3, 2 * d, 2 * d + 1, rng.randint(d, max(d + 1, min(hi, 260)))])
+        bk = n // 2
+        s_ = rng.choice([bk, bk, bk - 1, bk + 1])
+        v = ([B - 1] * s_ if rng.random() < 0.8 else pat(rng, s_, norm=False)) + [0] * (n - s_ - 1) + [rng.choice([HALF, HALF, HALF + 1, HALF + 2, B - 1])]
+        lu = n + rng.choice([bk, bk, bk, bk - 1, bk + 1, (n + 1) // 2])
+        u = [B - 1] * lu if rng.random() < 0.6 else pat(rng, lu - bk, norm=False) + [B - 1] * bk
+        items = ["thresholds %d %d %d %d" % (rng.randint(2, 40), rng.randint(2, 12), rng.randint(4, 60), d), poison(rng, 3 * n),
+                 "div %s %s" % (L(u), L(v))]
+        yield dict(family="div-recursive-final-block", line=" ; ".join("O " + o for o in items))
+
     # ---- the small routines and the conversions
     for _ in range(200 * scale):
         x, y = pat(rng, rlen(rng, 60)), pat(rng, rlen(rng, 60))
